@@ -9,8 +9,9 @@ CONSTANTS
   ResetChoices <- RepairedOnly
   TamperTags <- AllTags
   CacheChoices = {"none"}
+  AckCodeChoices <- CodeAcks
   Concurrent = FALSE
   RecordHist = FALSE
-INVARIANTS TypeOK Agreement SuccessSound MutualGating ReplayRejected FaultNeverSuccess NoFaultClean Completeness PoolAccounting PoolClean
+INVARIANTS TypeOK Agreement SuccessSound MutualGating ReplayRejected FaultNeverSuccess CorruptionEndsBoth NoFaultClean Completeness PoolAccounting PoolClean
 VIEW view
 CHECK_DEADLOCK FALSE
